@@ -65,6 +65,10 @@ pub fn length_sweep(ctx: &mut Ctx) {
     deep_path_probes(ctx);
     index_spelling_probes(ctx);
     element_scope_probes(ctx);
+    every_operand_probes(ctx);
+    condition_kind_probes(ctx);
+    provenance_probes(ctx);
+    nested_same_kind_probes(ctx);
     stale_output_probes(ctx);
     if prop == "C02" || prop == "C06" || prop == "C04" {
         return;
@@ -121,6 +125,40 @@ pub fn length_sweep(ctx: &mut Ctx) {
                     ctx.check("sweep:missing_some:int-and-string-keys", &json!({"missing_some": [2 * have + 1, keys]}), &d);
                     ctx.check("sweep:missing_some:int-and-string-keys:enough", &json!({"missing_some": [2 * have, keys]}), &d);
                 }
+            }
+            "C07" | "C08" | "C09" if n <= 300 => {
+                // a string and a proper prefix of it, the lengths apart by 1, 255, 256, 257, 512, 65536
+                let ops: &[&str] = match prop.as_str() {
+                    "C07" => &["==", "!="],
+                    "C08" => &["===", "!=="],
+                    _ => &["<", ">="],
+                };
+                for d in [1usize, 255, 256, 257, 512, 65536] {
+                    if d == 65536 && n % 50 != 0 {
+                        continue;
+                    }
+                    let long = cyc_string(n - 1 + d, usize::MAX, 'x');
+                    let short: String = long.chars().take(n - 1).collect();
+                    for k in ops {
+                        ctx.check("sweep:strings:prefix", &al::op(k, vec![json!(short), json!(long)]), &null);
+                        ctx.check("sweep:strings:prefix", &al::op(k, vec![json!({"var": "l"}), json!({"var": "s"})]), &json!({"l": long, "s": short}));
+                    }
+                    // ASCII only (byte length = character count)
+                    let along = "a".repeat(n - 1 + d);
+                    let ashort = "a".repeat(n - 1);
+                    ctx.check("sweep:strings:prefix:ascii", &al::op(ops[0], vec![json!(ashort), json!(along)]), &null);
+                }
+            }
+            "C11" if n <= 300 => {
+                // an escaped separator (and an escaped escape character) at every byte offset of a key
+                let head = "k".repeat(n - 1);
+                let d = json!({format!("{}.zip", head): "literal key", head.clone(): {"zip": "nested key"}, format!("{}\\", head): {"zip": "backslash key"}, format!("{}\\.zip", head): "literal backslash-dot key"});
+                ctx.check("sweep:var:escaped-dot-at", &json!({"var": [format!("{}\\.zip", head), "dflt"]}), &d);
+                ctx.check("sweep:var:escaped-dot-at", &json!({"var": [format!("{}.zip", head), "dflt"]}), &d);
+                ctx.check("sweep:var:escaped-backslash-at", &json!({"var": [format!("{}\\\\.zip", head), "dflt"]}), &d);
+                ctx.check("sweep:var:escaped-backslash-at", &json!({"var": [format!("{}\\\\\\.zip", head), "dflt"]}), &d);
+                let d2 = json!({head.clone(): {"zip": "nested only"}});
+                ctx.check("sweep:var:escaped-dot-at:nested-only", &json!({"var": [format!("{}\\.zip", head), "dflt"]}), &d2);
             }
             "C03" => {
                 // every operand count: the operators without an upper bound accept it (and the ones with a
@@ -300,6 +338,13 @@ pub fn length_sweep(ctx: &mut Ctx) {
                     ctx.check("sweep:missing_some:repeated-key", &json!({"missing_some": [1, dup]}), &json!({}));
                 }
                 "C13" => {
+                    if n >= 3 {
+                        // two and three rejected elements (next to each other, far apart, at the ends)
+                        for rej in [vec![p, (p + 1) % n], vec![p, n - 1 - p.min(n - 1)], vec![0, p, n - 1], vec![p, (p + n / 3) % n, (p + 2 * n / 3) % n]] {
+                            ctx.check("sweep:filter:few-rejected", &json!({"filter": [{"var": "xs"}, {"!": [{"in": [{"var": ""}, rej]}]}]}), &dv);
+                        }
+                        ctx.check("sweep:filter:few-kept", &json!({"filter": [{"var": "xs"}, {"in": [{"var": ""}, [p, (p + 1) % n, n - 1]]}]}), &dv);
+                    }
                     ctx.check("sweep:filter:one", &json!({"filter": [{"var": "xs"}, {"==": [{"var": ""}, p]}]}), &dv);
                     ctx.check("sweep:filter:all-but-one", &json!({"filter": [{"var": "xs"}, {"!=": [{"var": ""}, p]}]}), &dv);
                     ctx.check("sweep:filter:literal:one", &json!({"filter": [xs, {"==": [{"var": ""}, p]}]}), &null);
@@ -348,6 +393,21 @@ pub fn length_sweep(ctx: &mut Ctx) {
                     ctx.check("sweep:in:string:absent", &json!({"in": ["!!", {"var": "s"}]}), &json!({ "s": s }));
                 }
                 "C16" => {
+                    // ASCII everywhere but for ONE multi-byte character at p (whole ASCII blocks before and after it)
+                    {
+                        let mb = ['é', '水', '😀'][p % 3];
+                        let s1: String = (0..n).map(|i| if i == p { mb } else { char::from(b'a' + (i % 26) as u8) }).collect();
+                        let ds1 = json!({ "s": s1 });
+                        let h = (n / 2) as i64;
+                        for (a, b) in [(0i64, None), (h, None), (-(n as i64) / 3 - 1, None), (0, Some(n as i64 - 1)), (0, Some(h + 1)), (p as i64, Some(1)), (p as i64 + 1, None), (1, Some(-1)), (h, Some(-1)), (-1, None)] {
+                            let mut args = vec![json!({"var": "s"}), json!(a)];
+                            if let Some(b) = b {
+                                args.push(json!(b));
+                            }
+                            ctx.check("sweep:substr:one-multibyte-at", &json!({ "substr": args }), &ds1);
+                        }
+                        ctx.check("sweep:cat:one-multibyte-at", &json!({"cat": [{"var": "s"}, "|", {"substr": [{"var": "s"}, h]}]}), &ds1);
+                    }
                     let parts: Vec<Value> = (0..n).map(|i| if i == p { Value::Null } else { json!("é") }).collect();
                     ctx.check("sweep:cat:null-at", &json!({ "cat": parts }), &null);
                     let s = cyc_string(n, p, '!');
@@ -660,6 +720,20 @@ pub fn edited_in_place_probes(ctx: &mut Ctx) {
 
 pub fn effects_probes(ctx: &mut Ctx) {
     edited_in_place_probes(ctx);
+    if ctx.mine() {
+        // one parsed rule applied to many elements: what is computed for one element (a key, a path, a converted
+        // number) is not remembered for the next
+        let people = json!([{"pick": "home", "home": "h-1", "work": "w-1", "n": "0x10"}, {"pick": "work", "home": "h-2", "work": "w-2", "n": "0x1g"}, {"pick": "none", "home": "h-3", "n": "0x11"}, {"pick": "home.0", "home": ["h-4"], "n": "17"}]);
+        let outer = json!({"people": people, "pick": "OUTER"});
+        for e in [json!({"var": {"var": "pick"}}), json!({"var": [{"var": "pick"}, "dflt"]}), json!({"missing": [{"var": "pick"}]}), json!({"var": {"cat": [{"var": "pick"}]}}), json!({"+": [{"var": "n"}, 0]}), json!({"<": [{"var": "n"}, 17]}),
+                  json!({"cat": [{"var": {"var": "pick"}}, "|", {"var": "home"}]}), json!({"substr": [{"var": "home"}, {"-": [0, {"+": [{"var": "n"}]}]}]})] {
+            for h in ["map", "filter", "all", "some", "none"] {
+                ctx.edge();
+                ctx.check("effects:per-element-state", &al::op(h, vec![json!({"var": "people"}), e.clone()]), &outer);
+            }
+            ctx.check("effects:per-element-state", &json!({"reduce": [{"var": "people"}, {"merge": [{"var": "accumulator"}, [rewrite_scope(&e)]]}, []]}), &outer);
+        }
+    }
     let mut vals = crate::selftest::unary_corpus();
     vals.extend(al::magnitude_ladder());
     vals.extend(al::type_grid());
@@ -930,7 +1004,8 @@ pub fn deep_path_probes(ctx: &mut Ctx) {
                     json!({"?:": [vd, 1, 2]}), json!({"!": [v]}), json!({"!!": [vd]}), json!({"if": [false, 0, v, "b", "c"]}), json!({"filter": [[1, 2], v]}),
                 ],
                 "C11" | "C04" => vec![v.clone(), vd.clone(), json!({"var": [p, "dflt"]}), json!({"cat": ["<", v, ">"]}), json!({"var": [{"cat": [p]}, "dflt"]})],
-                "C12" => vec![json!({"missing": [p]}), json!({"missing": [p, "zz", "s.0"]}), json!({"missing_some": [1, [p, "nope"]]}), json!({"missing_some": [2, [p, "s"]]})],
+                "C12" => vec![json!({"missing": [p]}), json!({"missing": [p, "zz", "s.0"]}), json!({"missing": [p, "s", "o.t", "o", "xs.1"]}), json!({"missing": ["name.first.initial", "o.t", "o", p]}),
+                    json!({"missing_some": [2, ["s.name.plural", "s", "o"]]}), json!({"missing": ["s.x.y", "0", 1, p]}), json!({"missing": ["xs.first.second.third", "xs.0", "xs", p]}), json!({"missing_some": [1, [p, "nope"]]}), json!({"missing_some": [2, [p, "s"]]})],
                 _ => vec![json!({"map": [["abc", "", "xyz"], {"var": [p.trim_start_matches("s."), "dflt"]}]}), json!({"filter": [{"var": "xs"}, {"var": p.trim_start_matches("xs.1.")}]})],
             };
             for r in rules {
@@ -1002,6 +1077,25 @@ pub fn index_spelling_probes(ctx: &mut Ctx) {
     if !["C11", "C12"].contains(&prop.as_str()) {
         return;
     }
+    if ctx.mine() {
+        // integer key operands of every magnitude on OBJECT data holding that key (an integer operand names the
+        // member spelled with its decimal digits, whatever its size)
+        for v in al::magnitude_ladder().into_iter().chain(al::ints_extreme()).filter(|v| v.is_i64() || v.is_u64()) {
+            ctx.edge();
+            let name = v.to_string();
+            let d = json!({name.clone(): "present", "other": 1});
+            if prop == "C11" {
+                ctx.check("integer-key-on-object", &json!({ "var": v }), &d);
+                ctx.check("integer-key-on-object", &json!({"var": [v, "dflt"]}), &d);
+                ctx.check("integer-key-on-object", &json!({"var": [{"var": "k"}, "dflt"]}), &json!({name.clone(): "present", "k": v}));
+                ctx.check("integer-key-on-object:absent", &json!({"var": [v, "dflt"]}), &json!({"other": 1}));
+                ctx.check("integer-key-on-object:in-map", &json!({"map": [[d.clone()], {"var": v}]}), &Value::Null);
+            } else {
+                ctx.check("integer-key-on-object", &json!({"missing": [v, "other", "zz"]}), &d);
+                ctx.check("integer-key-on-object", &json!({"missing_some": [3, [v, "other", "zz"]]}), &d);
+            }
+        }
+    }
     let segs = ["-+1", "+-1", "--1", "++1", "1-", "1+", "-", "+", "0x1", "0b1", "1e0", "1E0", "1.0", "1.", ".1", "\u{ff11}", "\u{661}", "1_0", "1,0", "1 0", "- 1", "-\u{a0}1", "1\u{0}", "\u{2212}1", "0-1", "1/1", "0o1", "Infinity", "-Infinity", "NaN", "true", "null", "9223372036854775808", "-9223372036854775809", "18446744073709551616", "1e1"];
     for seg in segs {
         if !ctx.mine() {
@@ -1039,8 +1133,25 @@ pub fn index_spelling_probes(ctx: &mut Ctx) {
 /// outer data, in both.
 pub fn element_scope_probes(ctx: &mut Ctx) {
     let prop = ctx.prop.clone();
-    if !["C11", "C13", "C14", "C04"].contains(&prop.as_str()) {
+    if !["C11", "C12", "C13", "C14", "C04"].contains(&prop.as_str()) {
         return;
+    }
+    if ctx.mine() {
+        // a computed key / key list whose value differs from element to element
+        let people = json!([{"pick": "home", "home": "h-1", "work": "w-1"}, {"pick": "work", "home": "h-2", "work": "w-2"}, {"pick": "none", "home": "h-3"}, {"pick": "home.0", "home": ["h-4"]}]);
+        for e in [json!({"var": {"var": "pick"}}), json!({"var": [{"var": "pick"}, "dflt"]}), json!({"missing": [{"var": "pick"}]}), json!({"missing": {"merge": [{"var": "pick"}, "work"]}}), json!({"missing_some": [1, [{"var": "pick"}, "zz"]]}),
+                  json!({"var": {"cat": [{"var": "pick"}]}}), json!({"cat": [{"var": {"var": "pick"}}, "|", {"var": "home"}]})] {
+            let outer = json!({"people": people, "pick": "OUTER"});
+            let hosts: &[&str] = if prop == "C14" { &["all", "some", "none"] } else { &["map", "filter"] };
+            for h in hosts {
+                ctx.edge();
+                ctx.check("element-scope:computed-key", &al::op(h, vec![json!({"var": "people"}), e.clone()]), &outer);
+                ctx.check("element-scope:computed-key:L", &al::op(h, vec![people.clone(), e.clone()]), &outer);
+            }
+            if prop != "C14" {
+                ctx.check("element-scope:computed-key:reduce", &json!({"reduce": [{"var": "people"}, {"merge": [{"var": "accumulator"}, [rewrite_scope(&e)]]}, []]}), &outer);
+            }
+        }
     }
     let colls = [json!([{"qty": 1, "fallback": 10}, {"fallback": 20}]), json!([{"fallback": 20}, {"qty": 0}, {}]), json!([{"qty": null, "fallback": "F"}]), json!([{"qty": 1}, 5, "str", null, [7]])];
     let exprs = [
@@ -1095,5 +1206,180 @@ fn rewrite_scope(e: &Value) -> Value {
         Value::Object(m) => Value::Object(m.iter().map(|(k, v)| (k.clone(), rewrite_scope(v))).collect()),
         Value::Array(a) => Value::Array(a.iter().map(rewrite_scope).collect()),
         v => v.clone(),
+    }
+}
+
+/// Eager operators evaluate EVERY operand, whatever the others are: a failing, ill-formed or logging operand
+/// next to operands that already "decide" the result (0 for `*`, an empty or null haystack for `in`, a false
+/// first comparison of a between test, an array first operand of `missing`, an empty string for `cat`, a
+/// maximum already reached) still fails / logs; position by position, for every eager and data operator.
+pub fn every_operand_probes(ctx: &mut Ctx) {
+    let prop = ctx.prop.clone();
+    let ops: &[&str] = match prop.as_str() {
+        "C03" | "C04" => &["==", "!=", "===", "!==", "<", "<=", ">", ">=", "+", "-", "*", "/", "%", "max", "min", "cat", "substr", "merge", "in", "missing", "missing_some", "var", "!", "!!"],
+        "C07" => &["==", "!="],
+        "C08" => &["===", "!=="],
+        "C09" => &["<", "<=", ">", ">="],
+        "C10" => &["+", "-", "*", "/", "%", "max", "min"],
+        "C11" => &["var"],
+        "C12" => &["missing", "missing_some"],
+        "C15" => &["in", "merge"],
+        "C16" => &["cat", "substr"],
+        _ => return,
+    };
+    let deciding: Vec<Value> = ["0", "null", "[]", "\"\"", "false", "1", "[\"a\",\"b\"]", "\"a\"", "3", "2", "-0.0", "\"x\""].iter().map(|t| al::parse(t)).collect();
+    let poisons = [json!({"in": [1, 2]}), json!({"var": [[1]]}), json!({"log": "T"}), json!({"==": [1]}), json!({"if": [{"none": []}]}), json!({"+": ["x"]})];
+    let d = json!({"a": 1, "xs": [], "n": null});
+    for k in ops {
+        for n in 1..=3usize {
+            if !crate::refmodel::arity_ok(k, n) {
+                continue;
+            }
+            if !ctx.mine() {
+                continue;
+            }
+            for pos in 0..n {
+                for p in &poisons {
+                    for (i, dv) in deciding.iter().enumerate() {
+                        ctx.edge();
+                        let mut args: Vec<Value> = (0..n).map(|j| deciding[(i + j * 5) % deciding.len()].clone()).collect();
+                        for (j, a) in args.iter_mut().enumerate() {
+                            if j != pos && j == 0 {
+                                *a = dv.clone();
+                            }
+                        }
+                        args[pos] = p.clone();
+                        ctx.check("every-operand-evaluated", &al::op(k, args.clone()), &d);
+                        // the deciding operands read from the data instead of written in the rule
+                        let vargs: Vec<Value> = args.iter().enumerate().map(|(j, a)| if j == pos { a.clone() } else { json!({"var": format!("o{}", j)}) }).collect();
+                        let mut dd = d.clone();
+                        for (j, a) in args.iter().enumerate() {
+                            if j != pos {
+                                dd[format!("o{}", j)] = a.clone();
+                            }
+                        }
+                        ctx.check("every-operand-evaluated:V", &al::op(k, vargs), &dd);
+                    }
+                }
+            }
+        }
+    }
+}
+
+/// Conditions of every kind that depend on the data in a way a syntactic scan can overlook (quantifiers over
+/// arrays WRITTEN in the rule whose items read the data, `missing`, `in` over a data value, nested ifs), for data
+/// that makes them true, false and different from what they are on null data; and deciding operators (`!!`, `!`,
+/// `and`, `or`, `if`) in the SELECTED positions, where their value - a boolean, or the operand itself - is the result.
+pub fn condition_kind_probes(ctx: &mut Ctx) {
+    let prop = ctx.prop.clone();
+    if !["C05", "C06"].contains(&prop.as_str()) {
+        return;
+    }
+    let conds = [
+        json!({"some": [[{"var": "a"}, {"var": "b"}], {"var": ""}]}), json!({"all": [[{"var": "a"}, {"var": "b"}], {"var": ""}]}), json!({"none": [[{"var": "a"}, {"var": "b"}], {"var": ""}]}),
+        json!({"some": [[1, {"var": "b"}], {"==": [{"var": ""}, 0]}]}), json!({"all": [[{"var": "a"}], true]}), json!({"missing": ["a"]}), json!({"missing_some": [1, ["a", "c"]]}), json!({"in": ["x", {"var": "s"}]}),
+        json!({"in": [{"var": "a"}, [0, 1]]}), json!({"if": [{"var": "a"}, {"var": "b"}, {"var": "a"}]}), json!({"filter": [[{"var": "a"}], true]}), json!({"map": [[], {"var": "a"}]}), json!({"reduce": [[1], {"var": "accumulator"}, {"var": "a"}]}),
+        json!({"merge": [{"var": "xs"}]}), json!({"cat": [{"var": "s"}]}), json!({"max": [{"var": "a"}, {"var": "b"}]}), json!({"var": ["zz", {"var": "a"}]}),
+    ];
+    let datas = [json!({"a": 0, "b": 1, "s": "x", "xs": []}), json!({"a": 1, "b": 0, "s": "", "xs": [0]}), json!({"a": 1, "b": 1, "c": 1, "s": "axb", "xs": [[]]}), json!({"a": 0, "b": 0}), json!(null), json!({"a": null, "b": [], "s": "x"})];
+    for c in &conds {
+        if !ctx.mine() {
+            continue;
+        }
+        for d in &datas {
+            ctx.edge();
+            for r in [json!({"if": [c, "y", "n"]}), json!({"?:": [c, "y", "n"]}), json!({"if": [false, "a", c, "y", "n"]}), json!({"and": [c, "next"]}), json!({"or": [c, "next"]}), json!({"!": [c]}), json!({"!!": [c]}),
+                      json!({"if": [{"!": [c]}, "y", "n"]}), json!({"cat": [{"if": [c, "y", "n"]}, {"if": [c, "y", "n"]}]}), json!({"map": [[1, 2], {"if": [c, "y", "n"]}]})] {
+                ctx.check("condition-kinds", &r, d);
+            }
+        }
+    }
+    let vals = al::many_pub(&["\"a\"", "0", "[]", "[[]]", "\"\"", "null", "\"0\"", "{}", "5e-324", "[0]", "-0.0"]);
+    for v in &vals {
+        if !ctx.mine() {
+            continue;
+        }
+        let d = json!({ "v": v });
+        for x in [v.clone(), json!({"var": "v"})] {
+            if al::is_operation_shaped(&x) && !x.get("var").is_some() {
+                continue;
+            }
+            ctx.edge();
+            for sel in [json!({"!!": [x]}), json!({"!": [x]}), json!({"!!": x}), json!({"and": [x]}), json!({"or": [x, x]}), json!({"if": [x]}), json!({"if": [x, "t", "f"]}), json!({"and": [1, x]})] {
+                for r in [json!({"if": [false, 1, sel]}), json!({"if": [true, sel, 0]}), json!({"?:": [0, 1, sel]}), json!({"if": [0, 1, 0, 2, sel]}), json!({"if": [0, 1, 1, sel, 3]}), json!({"or": [0, sel]}), json!({"and": [1, sel]}), json!({"if": [sel]}),
+                          json!({"or": [sel]}), json!({"if": [0, 1, 0, 2, 0, 3, sel]})] {
+                    ctx.check("deciding-operator-in-selected-position", &r, &d);
+                }
+            }
+        }
+    }
+}
+
+/// The result does not depend on HOW an operand came about: the same collection, expression or key written in the
+/// rule, read from the data, or computed by a data-free expression (merge / if / cat / filter over literals) - under
+/// an eager parent and at top level, with the other operands reading the data; and a per-element expression that is
+/// a constant.
+pub fn provenance_probes(ctx: &mut Ctx) {
+    let prop = ctx.prop.clone();
+    if !["C02", "C04", "C13", "C14"].contains(&prop.as_str()) {
+        return;
+    }
+    let d = json!({"xs": [1, 2, 3], "floor": 10, "x": "x", "a": 1, "ms": [{"var": "a"}, {"==": [1]}], "secret": "s3"});
+    let marker = json!({"var": "a"});
+    let colls: Vec<(&str, Value)> = vec![
+        ("literal", json!([1, 2, 3])), ("var", json!({"var": "xs"})), ("merge", json!({"merge": [[1, 2], [3]]})), ("if", json!({"if": [true, [1, 2, 3]]})), ("filter", json!({"filter": [[1, 2, 3], true]})),
+        ("merge-of-markers", json!({"merge": [[marker], [{"==": [1]}]]})), ("nested-literal", json!([[marker], [{"==": [1]}, {"substr": []}]])), ("var-markers", json!({"var": "ms"})), ("if-markers", json!({"if": [true, [marker]]})),
+    ];
+    let exprs = [json!("x"), json!(1), json!(null), json!([{"var": ""}]), json!({"k": {"var": ""}}), json!({"var": ""}), json!({"cat": ["x"]}), json!({"var": "0"}), json!({"===": [{"var": ""}, 1]}), json!({"var": "=="}), json!({"var": "var"})];
+    for (name, c) in &colls {
+        if !ctx.mine() {
+            continue;
+        }
+        for e in &exprs {
+            ctx.edge();
+            let rules: Vec<Value> = match prop.as_str() {
+                "C14" | "C02" => vec![json!({"all": [c, e]}), json!({"some": [c, e]}), json!({"none": [c, e]}), json!({"cat": [{"some": [c, e]}]}), json!({"if": [{"all": [c, e]}, "y", "n"]})],
+                _ => vec![
+                    json!({"map": [c, e]}), json!({"filter": [c, e]}), json!({"reduce": [c, {"cat": [{"var": "accumulator"}, rewrite_current(e)]}, {"var": "x"}]}),
+                    json!({"max": [0, {"reduce": [c, {"max": [{"var": "current"}, {"var": "accumulator"}]}, {"var": "floor"}]}]}), json!({"cat": [{"reduce": [c, {"cat": [{"var": "accumulator"}, "."]}, {"var": "x"}]}, "!"]}),
+                    json!({"merge": [{"map": [c, e]}, {"var": "floor"}]}), json!({"map": [{"var": "xs"}, {"reduce": [c, {"+": [1, {"var": "accumulator"}]}, {"var": ""}]}]}),
+                ],
+            };
+            for r in rules {
+                ctx.check(&format!("provenance:{}", name), &r, &d);
+            }
+        }
+    }
+}
+
+/// An operator nested inside ITSELF (or its siblings) with the same KIND of collection at both levels - string in
+/// string, literal array in literal array, computed in computed, empty in non-empty - in the per-element expression
+/// and in the collection position: whatever an operator keeps while it iterates (a scratch buffer, a borrowed cell,
+/// a depth counter, a cursor) is not shared with the inner call.
+pub fn nested_same_kind_probes(ctx: &mut Ctx) {
+    let prop = ctx.prop.clone();
+    if !["C13", "C14"].contains(&prop.as_str()) {
+        return;
+    }
+    let d = json!({"word": "banana", "w2": "ab", "xs": [1, 2], "ys": [[1], [], [2, 3]], "e": "", "ee": []});
+    let colls = [json!("ab"), json!({"var": "word"}), json!({"var": "w2"}), json!([1, 2]), json!({"var": "xs"}), json!({"var": "ys"}), json!(""), json!({"var": "ee"}), json!([[1], []])];
+    let inner_colls = [json!("cd"), json!("aeiou"), json!({"var": ""}), json!([3, 4]), json!({"var": "w2"}), json!(""), json!({"cat": [{"var": ""}, "x"]})];
+    let outers: &[&str] = if prop == "C13" { &["map", "filter", "reduce"] } else { &["all", "some", "none"] };
+    for c in &colls {
+        if !ctx.mine() {
+            continue;
+        }
+        for ic in &inner_colls {
+            for ik in ["all", "some", "none", "map", "filter"] {
+                ctx.edge();
+                for pred in [json!(true), json!({"==": [{"var": ""}, "a"]}), json!({"var": ""})] {
+                    let inner = al::op(ik, vec![ic.clone(), pred]);
+                    for ok in outers {
+                        let r = if *ok == "reduce" { json!({"reduce": [c, {"merge": [{"var": "accumulator"}, [rewrite_current(&inner)]]}, []]}) } else { al::op(ok, vec![c.clone(), inner.clone()]) };
+                        ctx.check("nested-same-kind", &r, &d);
+                    }
+                }
+            }
+        }
     }
 }
